@@ -4,7 +4,7 @@ CHECK = {
         "C08a: the OCC reference model in harness/storagex/c08_txn_test.go; a conflict reported for a blind write or after an ABA rewrite, and an ABA transaction committing, are allowed by the statement",
         "C08a: Commit of a transaction without writes (read-only or write-less) is not required to verify its reads (documented: equivalent to Rollback)",
         "PostgreSQL backend: no database server in the sandbox",
-        "raft-live: single-node cluster; every started write is waited for until raft has committed it, so each FSM batch holds one entry and the log order equals the action order",
+        "raft-live: single-node cluster; a single started write is waited for until raft has committed it (one entry per FSM batch, log order = action order); a burst starts 2-4 writes/commits behind a test-only gate on the raft log store (a slow disk) and a raft barrier entry, so raft group-commits them into one multi-entry FSM batch; their order is read back from the log store",
         "raft-live: observations are the values and listings handed to the caller; blind writes (conservatively verified by the backend) are not observations, so a false conflict on them is allowed",
         "raft-live: no chunked (> 256 KiB) entries, no empty values (an empty value hashes like an absent key)",
     ],
@@ -15,9 +15,12 @@ CHECK = {
              floors={"txn-inmem": {"nontrivial": 0.06}, "txn-inmem+cache": {"nontrivial": 0.06}, "txn-inmem+barrier": {"nontrivial": 0.06},
                      "txn-inmem+cache+encoding+barrier+barrierview": {"nontrivial": 0.06}}),
         unit("raft-live", "raft", ["raft/c08_live_test.go"], "^TestVerif_C08_RaftLive$",
-             quick={"checks": 20000, "shards": 1, "cap": 600},
-             thorough={"checks": 60000, "shards": 16, "cap": 1800},
+             quick={"checks": 12000, "shards": 1, "cap": 600},
+             thorough={"checks": 60000, "shards": 16, "cap": 2400},
              no_ulimit=True,
+             # goroutine timing can in principle change how raft groups a burst when rapid re-runs a case; every
+             # verdict is a fact about the log and the answers actually observed, so an unreproduced failure still counts
+             flaky_is_violation=True,
              # MAP_POPULATE of the 16 MB initial bolt mapping only costs kernel time
              env={"BAO_RAFT_DISABLE_MAP_POPULATE": "1"},
              floors={"raft-live": {"nontrivial": 0.04}}),
